@@ -27,6 +27,7 @@ ASSUMPTIONS = [
     "piecewise-exponential has no documented N(t): it is compared with the skygrid in the limit of vanishing growth only",
 ]
 BUDGET = {"quick": 75, "thorough": 800}
+ROUNDS = {"thorough": 16}
 FLOORS = {"reference_comparisons": {"quick": 800, "thorough": 8000}, "metamorphic_checks": {"quick": 500, "thorough": 5000},
           "models": 6, "schemes": 4, "permuted": 300, "batched_rows": 100}
 
